@@ -22,6 +22,7 @@ from liquid2.builtin import parse_primitive
 from liquid2.builtin import parse_string_or_identifier
 from liquid2.builtin import parse_string_or_path
 from liquid2.exceptions import LiquidSyntaxError
+from liquid2.exceptions import LiquidTypeError
 from liquid2.exceptions import TemplateNotFoundError
 
 if TYPE_CHECKING:
@@ -68,6 +69,14 @@ class IncludeNode(Node):
             f"{self.name}{var}{args} {self.token.wc[1]}%}}"
         )
 
+    def _length(self, val: Sequence[object]) -> int:
+        try:
+            return len(val)
+        except OverflowError as err:
+            raise LiquidTypeError(
+                f"range at '{self.var}' is too large", token=self.token
+            ) from err
+
     def render_to_output(self, context: RenderContext, buffer: TextIO) -> int:
         """Render the node to the output buffer."""
         name = self.name.evaluate(context)
@@ -91,10 +100,10 @@ class IncludeNode(Node):
                 key = self.alias or template.name.split(".")[0]
 
                 if isinstance(val, Sequence) and not isinstance(val, str):
-                    context.raise_for_loop_limit(len(val))
+                    context.raise_for_loop_limit(self._length(val))
                     # Loops inside the partial count these iterations too.
                     carry = context.loop_iteration_carry
-                    context.loop_iteration_carry = carry * max(len(val), 1)
+                    context.loop_iteration_carry = carry * max(self._length(val), 1)
                     try:
                         for itm in val:
                             namespace[key] = itm
@@ -142,10 +151,10 @@ class IncludeNode(Node):
                 key = self.alias or template.name.split(".")[0]
 
                 if isinstance(val, Sequence) and not isinstance(val, str):
-                    context.raise_for_loop_limit(len(val))
+                    context.raise_for_loop_limit(self._length(val))
                     # Loops inside the partial count these iterations too.
                     carry = context.loop_iteration_carry
-                    context.loop_iteration_carry = carry * max(len(val), 1)
+                    context.loop_iteration_carry = carry * max(self._length(val), 1)
                     try:
                         for itm in val:
                             namespace[key] = itm
